@@ -889,17 +889,18 @@ func c20OracleCheck(c *Ctx) {
 		c.Note("no oracle: model cross-check skipped")
 		return
 	}
+	// the regenerated constants (Tie A) as the oracle sees them
 	if a := or.Ask1("depth const"); a != fmt.Sprintf("max=%d cycles=1000", c20Max) {
 		c.Violate("corr-depth-const", "depth const", nil, map[string]any{"oracle": a})
 	}
-	// state machine: n pushes from init, then one more — model vs VerifMachine
+	// state machine: n pushes from reset (each after a valid position), then one more — model vs the real stateMachine
 	var lines []string
 	type smCase struct {
 		n    int
 		kind string
 	}
 	var cases []smCase
-	for _, n := range []int{0, 1, 2, 9998, 9999, 10000} {
+	for _, n := range []int{0, 1, 2, 3, 9998, 9999, 10000, 10001, 10005} {
 		for _, k := range []string{"A", "O", "X"} { // X = alternate
 			cases = append(cases, smCase{n, k})
 			lines = append(lines, fmt.Sprintf("depth sm %d %s", n, k))
@@ -908,12 +909,9 @@ func c20OracleCheck(c *Ctx) {
 	ans := or.Ask(lines)
 	for i, cs := range cases {
 		m := jsontext.NewVerifMachine()
-		okPushes := 0
-		var lastErr error
 		push := func(i int) error {
 			obj := cs.kind == "O" || (cs.kind == "X" && i%2 == 1)
-			if m.Length()%2 == 0 && m.Depth() > 1 && m.Last()>>63 == 1 {
-				// inside an object a name must come first
+			if m.Last()>>63 == 1 && m.Length()%2 == 0 { // inside an object a name comes first
 				if err := m.AppendString(); err != nil {
 					return err
 				}
@@ -923,83 +921,158 @@ func c20OracleCheck(c *Ctx) {
 			}
 			return m.PushArray()
 		}
+		okPushes := 0
 		for j := 0; j < cs.n; j++ {
-			if lastErr = push(j); lastErr != nil {
+			if push(j) != nil {
 				break
 			}
 			okPushes++
 		}
+		depth := m.Depth()
 		extra := 9
-		if lastErr == nil {
+		if okPushes == cs.n {
 			extra = jsontext.VerifErrClass(push(cs.n))
 		}
-		got := fmt.Sprintf("pushed=%d depth=%d next=%d", okPushes, m.Depth(), extra)
+		got := fmt.Sprintf("pushed=%d depth=%d next=%d", okPushes, depth, extra)
 		c.Case("sm|"+lines[i], true)
 		c.Hit("oracle/sm")
 		if got != ans[i] {
 			c.Violate("corr-depth-sm", lines[i], nil, map[string]any{"impl": got, "model": ans[i]})
 		}
 	}
-	// value path: bracket strings through the fuelled nestDepthOk model vs Decoder.ReadValue / Value.Format
+	// value path: skeletons through the model of consumeValue/reformatValue vs Decoder.ReadValue and Encoder.WriteValue,
+	// entered at several token depths
 	rng := c.SubRng(77)
-	lines = lines[:0]
-	var texts [][]byte
-	add := func(kinds []byte, start int) {
-		// skeleton of brackets only: arrays '[' ']' and objects '{' '}' (the oracle ignores everything else)
-		s := nest{"oracle", kinds, "0", false}
-		t, _ := s.text()
-		texts = append(texts, t)
-		br := c20Brackets(t)
-		lines = append(lines, fmt.Sprintf("depth nest %d %d %s", c20Max, start, hx(br)))
+	type nestCase struct {
+		s     nest
+		start int // Tokens.Depth() at which the value path is entered (1 = top level)
 	}
-	for _, d := range []int{1, 2, 3, 9999, 10000, 10001, 10002} {
+	var ncases []nestCase
+	lines = lines[:0]
+	nestDepths, nestStarts := []int{1, 2, 9999, 10000, 10001}, []int{1, 5000, 10000, 10001}
+	if c.Thorough() {
+		nestDepths, nestStarts = []int{1, 2, 3, 100, 9998, 9999, 10000, 10001, 10002, 15000}, []int{1, 2, 3, 5000, 9999, 10000, 10001}
+	}
+	for _, d := range nestDepths {
 		for _, pat := range []string{"allA", "allO", "mix"} {
-			add(c20Kinds(pat, d, rng), 1)
+			kinds := c20Kinds(pat, d, rng)
+			for _, sp := range []nest{{"oracle-" + pat, kinds, "0", false}, {"oracle-" + pat, kinds, "", false}, {"oracle-" + pat, kinds, "0", true}} {
+				if sp.fat && pat != "mix" && !c.Thorough() {
+					continue
+				}
+				for _, start := range nestStarts {
+					if start-1 < d {
+						ncases = append(ncases, nestCase{sp, start})
+						sk, _ := sp.sub(start - 1).skeleton()
+						lines = append(lines, fmt.Sprintf("depth nest %d %d %s", c20Max, start, hx(sk)))
+					}
+				}
+			}
 		}
 	}
 	ans = or.Ask(lines)
-	for i, t := range texts {
-		d := jsontext.NewDecoder(bytes.NewReader(t))
-		_, err := d.ReadValue()
-		got := "ok"
-		if err != nil {
+	for i, nc := range ncases {
+		t, opens := nc.s.text()
+		_, symIdx := nc.s.sub(nc.start - 1).skeleton()
+		render := func(err error) string {
+			if err == nil {
+				return "ok"
+			}
 			var se *jsontext.SyntacticError
 			if errors.As(err, &se) && c20Class(err) == "maxdepth" {
-				// offset of the refused bracket, counted in brackets
-				got = fmt.Sprintf("fail %d", len(c20Brackets(t[:se.ByteOffset])))
-			} else {
-				got = "other " + c20Class(err)
+				for lvl, off := range opens {
+					if int64(off) == se.ByteOffset && lvl >= nc.start-1 {
+						return fmt.Sprintf("fail %d", symIdx[lvl-(nc.start-1)])
+					}
+				}
+				return fmt.Sprintf("fail at byte %d (not an opening bracket)", se.ByteOffset)
 			}
+			return "other " + c20Class(err)
 		}
-		c.Case("nest|"+lines[i][:40]+fmt.Sprint(len(t)), true)
-		c.Hit("oracle/nest")
+		d := jsontext.NewDecoder(bytes.NewReader(t))
+		var err error
+		if p := guard(func() {
+			if err = c20Descend(d, nc.s, nc.start-1); err == nil {
+				_, err = d.ReadValue()
+			}
+		}); p != nil {
+			c.Panic("oracle/Decoder.ReadValue", []byte(nc.s.id()), p, nil)
+			continue
+		}
+		got := render(err)
+		c.Case(fmt.Sprintf("nest|%s|%d", nc.s.id(), nc.start), true)
+		c.Hit("oracle/nest/" + strings.Fields(ans[i] + " -")[0])
 		if got != ans[i] {
-			c.Violate("corr-depth-nest", "depth nest", nil, map[string]any{"impl": got, "model": ans[i], "len": len(t)})
+			c.Violate("corr-depth-nest", "depth nest/Decoder.ReadValue", []byte(fmt.Sprintf("%s start=%d", nc.s.id(), nc.start)), map[string]any{"impl": got, "model": ans[i]})
+		}
+		// the encoder's value path (reformatValue) must give the same verdict (its error offset is relative to the output: class only)
+		e := jsontext.NewEncoder(io.Discard)
+		if p := guard(func() {
+			if _, err = c20EncDescend(e, nc.s, nc.start-1); err == nil {
+				sub, _ := nc.s.sub(nc.start - 1).text()
+				err = e.WriteValue(sub)
+			}
+		}); p != nil {
+			c.Panic("oracle/Encoder.WriteValue", []byte(nc.s.id()), p, nil)
+			continue
+		}
+		gotE, wantE := c20Class(err), "ok"
+		if strings.HasPrefix(ans[i], "fail") {
+			wantE = "maxdepth"
+		}
+		if gotE != wantE {
+			c.Violate("corr-depth-nest", "depth nest/Encoder.WriteValue", []byte(fmt.Sprintf("%s start=%d", nc.s.id(), nc.start)), map[string]any{"impl": gotE, "model": ans[i]})
 		}
 	}
 }
 
-func c20Brackets(t []byte) []byte {
-	var br []byte
-	inStr := false
-	for i := 0; i < len(t); i++ {
-		ch := t[i]
-		if inStr {
-			if ch == '\\' {
-				i++
-			} else if ch == '"' {
-				inStr = false
-			}
-			continue
+// skeleton renders the bracket structure for the oracle (`[ ] { } s`, names/colons/commas elided) and
+// returns, for every level, the index of its opening bracket in the skeleton.
+func (s nest) skeleton() (sk []byte, openIdx []int) {
+	openIdx = make([]int, len(s.kinds))
+	for i, k := range s.kinds {
+		openIdx[i] = len(sk)
+		last := i == len(s.kinds)-1
+		if k == 'A' {
+			sk = append(sk, '[')
+		} else {
+			sk = append(sk, '{')
 		}
-		switch ch {
-		case '"':
-			inStr = true
-		case '[', ']', '{', '}':
-			br = append(br, ch)
+		if s.fat && !(last && s.leaf == "") {
+			sk = append(sk, 's')
 		}
 	}
-	return br
+	if s.leaf != "" {
+		sk = append(sk, 's')
+	}
+	for i := len(s.kinds) - 1; i >= 0; i-- {
+		if s.kinds[i] == 'A' {
+			sk = append(sk, ']')
+		} else {
+			sk = append(sk, '}')
+		}
+	}
+	return sk, openIdx
+}
+
+// c20CycleModelCheck compares the traversal model (Model/Cycle.lean, proven properties in Props/C20.lean) with
+// what the real Marshal did on the same three graphs: model `outOfFuel` (for every fuel, by theorem) ⇔ the real
+// call overflowed the stack; model `cycle` ⇔ the real call returned the cycle error.
+func c20CycleModelCheck(c *Ctx, observed map[string]string) {
+	or := c.NewOracle()
+	if or == nil {
+		return
+	}
+	for _, p := range [][2]string{{"selfPtr", "Marshal/ptr-to-ptr-cycle"}, {"selfIface", "Marshal/iface-self"}, {"selfSlice", "Marshal/slice-self"}} {
+		model := or.Ask1("depth cyc " + p[0] + " 30000")
+		impl := observed[p[1]]
+		want := map[string]string{"outOfFuel": "stack-overflow", "cycle": "cycle", "maxDepth": "maxdepth", "ok": "ok"}[model]
+		c.Case("cyc-model|"+p[0], true)
+		c.Hit("oracle/cyc/" + p[0] + "=" + model)
+		if impl != want {
+			c.Violate("corr-cycle-model", "depth cyc "+p[0], nil, map[string]any{"model": model, "impl": impl, "op": p[1]})
+		}
+	}
 }
 
 // =====================================================================================
@@ -1026,6 +1099,13 @@ func c20Cycles(c *Ctx) {
 	nproc := 2
 	if c.Thorough() {
 		nproc = 8
+	}
+	var omu sync.Mutex
+	observed := map[string]string{}
+	record := func(op, res string) {
+		omu.Lock()
+		observed[op] = res
+		omu.Unlock()
 	}
 	var wg sync.WaitGroup
 	for w := 0; w < nproc; w++ {
@@ -1061,6 +1141,7 @@ func c20Cycles(c *Ctx) {
 						return
 					}
 					c.Hit("cycle/" + op + "=" + res)
+					record(op, res)
 					ok := true
 					switch j.want {
 					case "cyc":
@@ -1091,12 +1172,14 @@ func c20Cycles(c *Ctx) {
 					kind = "stack-overflow"
 				}
 				c.Hit("cycle/" + op + "=" + kind)
+				record(op, kind)
 				c.Violate(kind, op, nil, map[string]any{"status": status, "stderr_head": trunc(stderr, 300)})
 				remaining = remaining[stuck+1:]
 			}
 		}(mine)
 	}
 	wg.Wait()
+	c20CycleModelCheck(c, observed)
 }
 
 // =====================================================================================
